@@ -380,7 +380,8 @@ class Source:
         self.plan = plan
         self.name = plan.name
         if plan.fresh:
-            self.items = [Item(i.key, i.uid, i.truth) for i in plan.items]
+            copies = {}  # (an object that occurs several times in the plan occurs as often - as one object - in the copy)
+            self.items = [copies.setdefault(id(i), Item(i.key, i.uid, i.truth)) for i in plan.items]
             self.refs = []
         else:
             self.items = plan.items
